@@ -473,6 +473,160 @@ func (b *baseMark) Request(ctx frugal.FContext, payload []byte) (thrift.TTranspo
 	return b.FTransport.Request(ctx, payload)
 }
 
+// ---------- C14 through the EMITTED processor: unknown method / unreadable arguments ----------
+//
+// job "raw": the request frame of a real call through the emitted client is captured, then either its
+// method name is replaced by an unknown one or its argument struct is truncated, and the frame is handed
+// to the emitted processor. Output: calls=<handler invocations> reply=<REPLY|EXCEPTION:<type>|none> opid=<same|other|none>
+type captureTransport struct {
+	memTransport
+	last []byte
+}
+
+func (c *captureTransport) Request(ctx frugal.FContext, payload []byte) (thrift.TTransport, error) {
+	c.last = append([]byte{}, payload...)
+	return nil, errors.New("captured")
+}
+func (c *captureTransport) Oneway(ctx frugal.FContext, payload []byte) error {
+	c.last = append([]byte{}, payload...)
+	return nil
+}
+
+func runRaw(d *Defs, svcKey, methodKey, payload string) string {
+	entry, ok := services[svcKey]
+	if !ok {
+		return "no-such-service:" + svcKey
+	}
+	parts := strings.SplitN(payload, "|", 2)
+	kind := parts[0]
+	argsSD, ok1 := d.Structs[methodKey+"_args"]
+	if !ok1 {
+		return "no-such-method:" + methodKey
+	}
+	method := methodKey[strings.LastIndex(methodKey, "_")+1:]
+	pos := 0
+	argv := parseVal(parts[1], &pos)
+	ncalls := 0
+	var mu sync.Mutex
+	call := func(service, m string, fctx frugal.FContext, args []interface{}, ret interface{}) error {
+		mu.Lock()
+		ncalls++
+		mu.Unlock()
+		return nil
+	}
+	pf := protoFactory("binary")
+	proc := entry.NewProcessor(call)
+	cap := &captureTransport{}
+	client := reflect.ValueOf(entry.NewClient(frugal.NewFServiceProvider(cap, pf)))
+	mv := client.MethodByName(titleFirst(method))
+	if !mv.IsValid() {
+		return "client-has-no-method:" + method
+	}
+	fctx := frugal.NewFContext("c")
+	in := []reflect.Value{reflect.ValueOf(fctx)}
+	for i, f := range argsSD.Fields {
+		pv := reflect.New(mv.Type().In(i + 1)).Elem()
+		if fv, ok := argv.Fields[f.ID]; ok {
+			assign(d, pv, f.Ty, fv)
+		}
+		in = append(in, pv)
+	}
+	mv.Call(in)
+	frame := cap.last
+	if len(frame) < 9 {
+		return "no-frame-captured"
+	}
+	hsize := int(uint32(frame[5])<<24 | uint32(frame[6])<<16 | uint32(frame[7])<<8 | uint32(frame[8]))
+	envAt := 9 + hsize // binary protocol message begin: version|type (4) name len (4) name seqid (4)
+	if envAt+8 > len(frame) {
+		return "frame-too-short"
+	}
+	nameLen := int(uint32(frame[envAt+4])<<24 | uint32(frame[envAt+5])<<16 | uint32(frame[envAt+6])<<8 | uint32(frame[envAt+7]))
+	argsAt := envAt + 8 + nameLen + 4
+	var mutated []byte
+	switch kind {
+	case "unknown":
+		newName := []byte("zz" + method)
+		mutated = append(mutated, frame[4:envAt+4]...)
+		mutated = append(mutated, be32u(uint32(len(newName)))...)
+		mutated = append(mutated, newName...)
+		mutated = append(mutated, frame[envAt+8+nameLen:]...)
+	case "badargs":
+		// a field header announcing a struct that never comes
+		mutated = append(mutated, frame[4:argsAt]...)
+		mutated = append(mutated, 12, 0, 99)
+	default:
+		mutated = append(mutated, frame[4:]...)
+	}
+	full := append(be32u(uint32(len(mutated))), mutated...)
+	mt := &memTransport{proc: proc, pf: pf}
+	reply, perr := mt.process(full)
+	mu.Lock()
+	n := ncalls
+	mu.Unlock()
+	if reply == nil {
+		return fmt.Sprintf("calls=%d reply=none opid=none err=%s", n, errClass(perr))
+	}
+	hdrs, err := headersOf(reply)
+	if err != nil {
+		return fmt.Sprintf("calls=%d reply=garbled", n)
+	}
+	reqOp, _ := fctx.RequestHeader("_opid")
+	opid := "other"
+	if hdrs["_opid"] == reqOp {
+		opid = "same"
+	}
+	rbuf := thrift.NewTMemoryBuffer()
+	rsize := int(uint32(reply[1])<<24 | uint32(reply[2])<<16 | uint32(reply[3])<<8 | uint32(reply[4]))
+	rbuf.Write(reply[5+rsize:])
+	rp := thrift.NewTBinaryProtocolConf(rbuf, nil)
+	_, mtype, _, err := rp.ReadMessageBegin(ctx)
+	if err != nil {
+		return fmt.Sprintf("calls=%d reply=garbled-envelope opid=%s", n, opid)
+	}
+	kindS := "REPLY"
+	if mtype == thrift.EXCEPTION {
+		ae := thrift.NewTApplicationException(0, "")
+		if err := ae.Read(ctx, rp); err != nil {
+			return fmt.Sprintf("calls=%d reply=EXCEPTION:garbled opid=%s", n, opid)
+		}
+		kindS = fmt.Sprintf("EXCEPTION:%d", ae.TypeId())
+	}
+	return fmt.Sprintf("calls=%d reply=%s opid=%s", n, kindS, opid)
+}
+
+// headersOf decodes the v0 header block of a frame (without size prefix) by the documented layout.
+func headersOf(b []byte) (map[string]string, error) {
+	if len(b) < 5 || b[0] != 0 {
+		return nil, errors.New("bad header block")
+	}
+	m := int(uint32(b[1])<<24 | uint32(b[2])<<16 | uint32(b[3])<<8 | uint32(b[4]))
+	if 5+m > len(b) {
+		return nil, errors.New("bad header size")
+	}
+	hs := b[5 : 5+m]
+	out := map[string]string{}
+	for len(hs) > 0 {
+		var kv [2]string
+		for j := 0; j < 2; j++ {
+			if len(hs) < 4 {
+				return nil, errors.New("truncated")
+			}
+			k := int(uint32(hs[0])<<24 | uint32(hs[1])<<16 | uint32(hs[2])<<8 | uint32(hs[3]))
+			if 4+k > len(hs) {
+				return nil, errors.New("truncated")
+			}
+			kv[j] = string(hs[4 : 4+k])
+			hs = hs[4+k:]
+		}
+		out[kv[0]] = kv[1]
+	}
+	return out, nil
+}
+
+func be32u(n uint32) []byte { return []byte{byte(n >> 24), byte(n >> 16), byte(n >> 8), byte(n)} }
+
 func init() {
 	jobOps["rpc"] = runRPC
+	jobOps["raw"] = runRaw
 }
